@@ -547,6 +547,13 @@ func c13StopKind(out RunOutcome) string {
 func c13Model(c *c13Case, model *Model) (c13Obs, SX, error) {
 	ans, err := model.Ask(c.SX().String())
 	if err != nil {
+		// the model process is stateless: if it died (e.g. killed under memory
+		// pressure) start a new one and ask again, once
+		if rerr := c13RestartModel(model); rerr == nil {
+			ans, err = model.Ask(c.SX().String())
+		}
+	}
+	if err != nil {
 		return c13Obs{}, SX{}, err
 	}
 	x, err := ParseSX(ans)
@@ -587,6 +594,20 @@ func c13Model(c *c13Case, model *Model) (c13Obs, SX, error) {
 		}
 	}
 	return obs, x, nil
+}
+
+func c13RestartModel(m *Model) error {
+	m.in.Close()
+	if m.cmd.Process != nil {
+		m.cmd.Process.Kill()
+	}
+	m.cmd.Wait()
+	nm, err := StartModel("builtins")
+	if err != nil {
+		return err
+	}
+	*m = *nm
+	return nil
 }
 
 func normEffects(l []string) []string {
@@ -1245,14 +1266,14 @@ func runC13(cfg Config, r *Result) {
 	for _, fn := range []string{"min", "max", "pow", "atan2"} {
 		for _, x := range c13Nums {
 			for _, y := range c13Nums {
-				if cfg.Tier != "thorough" && cfg.Rng.Intn(4) != 0 {
+				if cfg.Tier != "thorough" && cfg.Rng.Intn(8) != 0 {
 					continue
 				}
 				c13Check(&c13Case{Origin: "sweep", Calls: []cCall{{Name: fn, Args: []cVal{vNum(x), vNum(y)}}}}, model, r)
 			}
 		}
 	}
-	n := cfg.N(2500, 60000)
+	n := cfg.N(1500, 40000)
 	for i := 0; i < n; i++ {
 		if i%25 == 24 {
 			c13Check(genIllTyped(cfg.Rng), model, r)
